@@ -2192,6 +2192,20 @@ static void upipe_h265f_output_au(struct upipe *upipe, struct uref *uref,
     upipe_h265f_output(upipe, uref, upump_p);
 }
 
+/** @internal @This forgets the NAL offsets recorded so far: the data they
+ * describe has left the stream, and the head buffer they are attached to may
+ * stay the same.
+ *
+ * @param upipe description structure of the pipe
+ */
+static void upipe_h265f_reset_nal_offsets(struct upipe *upipe)
+{
+    struct upipe_h265f *upipe_h265f = upipe_h265f_from_upipe(upipe);
+    upipe_h265f->au_nal_units = 0;
+    if (upipe_h265f->next_uref != NULL)
+        uref_h26x_delete_nal_offsets(upipe_h265f->next_uref);
+}
+
 /** @internal @This prepares an annex B access unit.
  *
  * @param upipe description structure of the pipe
@@ -2211,6 +2225,7 @@ static struct uref *upipe_h265f_prepare_annexb(struct upipe *upipe)
         upipe_h265f->active_pps == -1) {
         upipe_warn(upipe, "discarding data without VPS/SPS/PPS");
         upipe_h265f_consume_uref_stream(upipe, upipe_h265f->au_size);
+        upipe_h265f_reset_nal_offsets(upipe);
         upipe_h265f->au_size = 0;
         upipe_h265f->au_nal_units = 0;
         upipe_h265f->au_vcl_offset = -1;
@@ -2230,7 +2245,7 @@ static struct uref *upipe_h265f_prepare_annexb(struct upipe *upipe)
         upipe_throw_fatal(upipe, UBASE_ERR_ALLOC);
         return NULL;
     }
-    upipe_h265f->au_nal_units = 0;
+    upipe_h265f_reset_nal_offsets(upipe);
 
     int err = upipe_h265f_prepare_au(upipe, uref);
     UBASE_FATAL(upipe, err);
@@ -2324,6 +2339,7 @@ static void upipe_h265f_end_annexb(struct upipe *upipe, struct upump **upump_p)
             /* we need to discard previous data */
             upipe_warn(upipe, "discarding non-sync data");
             upipe_h265f_consume_uref_stream(upipe, upipe_h265f->au_size);
+            upipe_h265f_reset_nal_offsets(upipe);
             upipe_h265f->au_size = 0;
         }
         upipe_h265f_sync_acquired(upipe);
@@ -2374,6 +2390,7 @@ static void upipe_h265f_end_annexb(struct upipe *upipe, struct upump **upump_p)
         /* discard the entire NAL */
         upipe_warn(upipe, "discarding non-slice data due to discontinuity");
         upipe_h265f_consume_uref_stream(upipe, upipe_h265f->au_size);
+        upipe_h265f_reset_nal_offsets(upipe);
         upipe_h265f->au_size = 0;
         return;
     }
